@@ -129,7 +129,13 @@ TRIAGE = {
     ("_derive_mol_from_tokens", "pop", "prev_stack.pop()"): "STACK_PAIRING",
     ("_derive_mol_from_tokens", "subscript", "list(ring_log.items())[-1]"): "RINGLOG_NONEMPTY",
     ("get_selfies_from_index", "explicit", "raise IndexError()"): "INDEX_NONNEG",
+    ("_derive_mol_from_symbols", "none-deref", "prev_atom.index"): "STATE_PREV",
+    ("_derive_mol_from_tokens", "none-deref", "prev_atom.index"): "CHAIN_START",
+    ("_derive_mol_from_tokens", "none-deref", "tok.start_idx"): "RINGLOG_ENTRIES",
 }
+INVARIANTS["CHAIN_START"] = ("in the SMILES parser a ring / branch token is processed only after an atom of the same chain (a raising test "
+                             "of the chain-start flag dominates it), so the previous atom is not None; checked by EST-CHAIN_START")
+INVARIANTS["RINGLOG_ENTRIES"] = "ring_log values are (token, atom, position) triples built from real tokens"
 INVARIANTS["INDEX_NONNEG"] = ("the encoder converts only ring distances - 1 >= 0 (RINGBOND_DISTINCT: established by the parser's "
                               "self-closure guard, checked by EST-RINGBOND_DISTINCT) and branch lengths - 1 >= 0 (a printed branch has >= 1 token)")
 INVARIANTS["TABLE_SHAPE"] = "values of the folded branch / ring tables are tuples of the unpacked arity (checked by folding, C02/T5)"
@@ -194,6 +200,7 @@ def analyse(ctx, rep, api_name, consts_list, allowed, pid):
         lst = occ.setdefault(k, [])
         if all(x is not s.node for x in lst):
             lst.append(s.node)
+    triage_prepare(E)
     # ---- engine-based linear discharges
     ec = EngineChecks(ctx)
     if api_name == "decoder":
@@ -221,7 +228,7 @@ def analyse(ctx, rep, api_name, consts_list, allowed, pid):
     need = {}
     for info, s in E.all_sites():
         if s.discharge is None and s.kind in ("subscript", "assert", "int") and not info.f.is_method and info.f.cls is None \
-                and site_key(s, occ)[:3] not in TRIAGE:
+                and triage_lookup(ctx, s, site_key(s, occ)[:3]) is None:
             need[info.f.qual] = info.f
     for q, f in sorted(need.items()):
         ec.run_on(f)
@@ -236,6 +243,66 @@ def _numeric_arg(info, arg):
     t = info.type_of(arg)
     kinds = {a[0] for a in t}
     return bool(kinds & {"int", "float"}) and not (kinds & {"str"})
+
+
+import re as _re
+_IDENT = _re.compile(r"(?<![\w.])([A-Za-z_]\w*)")
+
+
+_KEYWORDS = {"assert", "raise", "in", "is", "not", "None", "True", "False", "and", "or", "for", "if", "else", "lambda", "self", "element"}
+
+
+def alpha(text, func, db=None):
+    """rename local variables / parameters in a construct text to positional placeholders, so that triage keys survive
+    alpha-renaming: every bare identifier that is not a keyword, `self`, a builtin or a module-level name of the
+    function's module counts as a local"""
+    from sa.db import BUILTINS
+    mod = func.module
+    order = {}
+
+    def is_global(w):
+        return w in mod.defs or w in mod.assigned or w in mod.imports or w in BUILTINS
+
+    def sub(mo):
+        w = mo.group(1)
+        if w in _KEYWORDS or is_global(w) and w not in func.locals:
+            return w
+        if w not in order:
+            order[w] = "$%d" % len(order)
+        return order[w]
+    return _IDENT.sub(sub, text)
+
+
+_TRIAGE_STATE = {}
+
+
+def triage_prepare(E):
+    """which triage entries are matched exactly by a construct of the current tree (those are not available for
+    alpha-renamed matching of other constructs)"""
+    texts = {}
+    for info, s in E.all_sites():
+        k = s.key()
+        texts.setdefault((k[0], k[1]), set()).add(k[2])
+    exact = set()
+    for (f2, k2, t2) in TRIAGE:
+        if t2 in texts.get((f2, k2), ()):
+            exact.add((f2, k2, t2))
+    _TRIAGE_STATE["exact"] = exact
+
+
+def triage_lookup(ctx, s, key3):
+    """invariant for a site: its exact key; otherwise an entry of the same function / kind / alpha-shape that no construct
+    of the current tree matches exactly (the entry's construct was renamed)"""
+    inv = TRIAGE.get(key3)
+    if inv is not None:
+        return inv
+    fname, kind, text = key3
+    mine = alpha(text, s.func)
+    exact = _TRIAGE_STATE.get("exact", set())
+    for (f2, k2, t2), inv2 in TRIAGE.items():
+        if f2 == fname and k2 == kind and (f2, k2, t2) not in exact and alpha(t2, s.func) == mine:
+            return inv2
+    return None
 
 
 def site_key(s, occ):
@@ -257,7 +324,7 @@ def report(ctx, rep, E, ec, occ, allowed, pid, known_recursion=()):
     for info, s in E.all_sites():
         n_sites += 1
         key = site_key(s, occ)
-        short = "%s/%s/%s%s" % (key[0], key[1], key[2], ("#%d" % key[3]) if len(key) > 3 else "")
+        short = "%s/%s/%s%s" % (key[0], key[1], alpha(key[2], s.func), ("#%d" % key[3]) if len(key) > 3 else "")
         if s.discharge is not None:
             rep.ob("X-" + s.kind, True, s.node, s.func, construct=s.text, how=s.discharge, key=short, nontrivial=True)
             continue
@@ -271,7 +338,7 @@ def report(ctx, rep, E, ec, occ, allowed, pid, known_recursion=()):
         if not bad:
             rep.ob("X-" + s.kind, True, s.node, s.func, construct=s.text, how="escapes only as %s" % sorted(excs), key=short)
             continue
-        inv = TRIAGE.get(key[:3])
+        inv = triage_lookup(ctx, s, key[:3])
         if inv is not None:
             rep.ob("X-" + s.kind, True, s.node, s.func, construct=s.text,
                    how="named invariant %s: %s" % (inv, INVARIANTS.get(inv, "")[:160]), key=short, nontrivial=True)
@@ -464,6 +531,24 @@ def check_establishing(ctx, rep, E):
                        how="dominated by a raising guard that the two endpoints differ (establishes RINGBOND_DISTINCT)",
                        witness=None if ok else "a ring bond can be created between an atom and itself (e.g. 'C11'): the ring distance 0 later "
                        "raises IndexError in the index encoder instead of EncoderError", nontrivial=True, key="RINGBOND_DISTINCT/" + f.name)
+    # EST-CHAIN_START: a dereference of the maybe-None previous atom in the parser is dominated by the (raising) chain-start test
+    for key in E.order:
+        info = E.infos[key]
+        f = info.f
+        for st_ in info.sites:
+            if st_.kind == "none-deref" and triage_lookup(ctx, st_, st_.key()[:3]) == "CHAIN_START":
+                facts = guard_facts(f, noreturn_pred(ctx, f))
+                fs = facts.get(id(st_.node), frozenset())
+                flags = set()
+                for nd in own_nodes(f.node):
+                    if isinstance(nd, ast.Assign) and len(nd.targets) == 1 and isinstance(nd.targets[0], ast.Name) \
+                            and isinstance(nd.value, ast.Constant) and isinstance(nd.value.value, bool):
+                        flags.add(nd.targets[0].id)
+                ok = any(fc[0] == "falsy" and fc[1] in flags for fc in fs)
+                rep.ob("EST", ok, st_.node, f, construct="%s under the chain-start test" % st_.text,
+                       how="dominated by a raising test of the chain-start flag (establishes CHAIN_START)",
+                       witness=None if ok else "a ring digit or branch bracket at the start of a chain dereferences the missing previous atom: "
+                       "AttributeError instead of EncoderError", nontrivial=True, key="CHAIN_START/" + f.name)
     # EST-AROMATIC_TABLES: the two element tables have one key set and kekulize() rejects other elements before pruning
     try:
         av = ctx.fold.global_value("selfies.constants", "AROMATIC_VALENCES")
